@@ -137,9 +137,14 @@ func runShuffle(t *testing.T, ksc KScenario, res *KResult) {
 	res.Nontrivial = true
 	res.ProbeN("dials-captured", int64(got))
 	N := float64(got)
-	// every permutation occurs (for n<=5 and >=1200 dials the chance of missing one is < 1e-12)
-	if n <= 5 && len(perms) != nperm {
+	// every permutation occurs: with N >= 30 n! uniform draws the chance of missing one is below n! e^-30 (1e-11 for n = 5);
+	// with fewer draws (N >= 8 n!) only a coverage of 80 % is demanded (the chance of missing a fifth of them is far smaller
+	// still) - a shuffle that reaches only the cyclic permutations covers 1/n of them
+	switch {
+	case got >= 30*nperm && len(perms) != nperm:
 		res.Fail("not every permutation of a small transport-parameter list occurs over many dials", "%d of %d permutations in %d dials (%s)", len(perms), nperm, got, sc.Client)
+	case got >= 8*nperm && len(perms)*5 < nperm*4:
+		res.Fail("not every permutation of a small transport-parameter list occurs over many dials", "only %d of %d permutations in %d dials (%s)", len(perms), nperm, got, sc.Client)
 	}
 	// position frequencies: binomial(N, 1/n), band of 8 standard deviations
 	sd := math.Sqrt(N * (1 / float64(n)) * (1 - 1/float64(n)))
